@@ -199,6 +199,191 @@ fn getter_view(kind: &Kind, bi: &BootInformation, rbase: *const u8, fbvar: u8) -
     }
 }
 
+/// Derived views of the two kinds whose variable part is handed out through an iterator (EFI descriptors, ELF section
+/// headers): every element reachable through next/nth/skip/step_by/last lies inside [fixed part, declared size).
+fn derived(ctx: &mut Ctx, arena: &Arena) {
+    static INSIDE: &[u8] = b"inside\0";
+    static PLANTED: &[u8] = b"PLANTED\0";
+    let nmax = if ctx.quick() { 3 } else { 6 };
+    ctx.bound("derived_views", format!("EFI map (desc_size 48, version 1): declared size 16..=16+48*{}+47, tag flush against a guard page and inside a region followed by a marker tag; fresh iterator x {{nth(k), next+nth(k), skip(k).next, step_by(k).nth(1), last, count}} for k in 0..=N+2, every yielded descriptor must sit at 16+48*i with i below (size-16)/48. ELF sections (entry size 64): 0..={} headers + 0..=23 spare bytes x string-table index 0..=N+1, followed by a tag holding planted string addresses; name() must resolve through a header inside the tag or be refused", nmax, nmax.min(3)));
+    // ---------- EFI descriptors
+    for size in 16..=(16 + 48 * nmax + 47) as u32 {
+        for seam in 0..2 {
+            let mut tut = vec![0u8; size as usize];
+            for i in 8..tut.len() {
+                tut[i] = marker(i, 9);
+            }
+            wr32(&mut tut, 0, bi::EFI_MMAP);
+            wr32(&mut tut, 4, size);
+            wr32(&mut tut, 8, 48);
+            wr32(&mut tut, 12, 1);
+            let n = (size as usize - 16) / 48;
+            let describe = || J::obj().set("part", "derived/efi").set("seam", if seam == 0 { "tag" } else { "region" }).set("declared_size", size).set("tag", J::hex(&tut));
+            ctx.leaf(describe, |ctx| {
+                ctx.state_direct();
+                ctx.nontrivial();
+                arena.fill(arena::FILL_A);
+                let (p, toff): (*const u8, usize) = if seam == 0 {
+                    let mut img = tut.clone();
+                    while img.len() % 8 != 0 {
+                        img.push(0x5E);
+                    }
+                    (arena.place_right(&img), 0)
+                } else {
+                    let follower = bi::tag(0x12345678, &[0xA5; 56]);
+                    let region = bi::region(&[tut.clone(), follower, bi::end_tag()], &bi::marker_pad);
+                    (arena.place_right(&region), 8)
+                };
+                let holder: BootInformation;
+                let tag: &EFIMemoryMapTag = if seam == 0 {
+                    let slice: &[u8] = unsafe { std::slice::from_raw_parts(p, round8(size as usize)) };
+                    match ctx.call("ref_from_slice", || Generic::ref_from_slice(slice).map(|g| g.cast::<EFIMemoryMapTag>())) {
+                        Out::Val(Ok(t)) => t,
+                        _ => {
+                            ctx.violation("c05/derived/efi/view", || format!("EFI map tag of size {} refused", size));
+                            return;
+                        }
+                    }
+                } else {
+                    let r = ctx.call("load", || unsafe { BootInformation::load(p as *const BootInformationHeader) });
+                    let Out::Val(Ok(b)) = r else {
+                        ctx.violation("c05/region-load", || "load failed on a well-formed region".into());
+                        return;
+                    };
+                    holder = b;
+                    match ctx.call("efi_memory_map_tag", || holder.efi_memory_map_tag()) {
+                        Out::Val(Some(t)) => t,
+                        _ => {
+                            ctx.violation("c05/getter-none/EfiMmap", || "efi_memory_map_tag() returned nothing".into());
+                            return;
+                        }
+                    }
+                };
+                let base = unsafe { p.add(toff) };
+                // (label, items as offsets from the tag start, expected indices)
+                let mut progs: Vec<(String, Out<Vec<i64>>, Vec<usize>)> = vec![];
+                let all: Vec<usize> = (0..n).collect();
+                progs.push(("collect".into(), ctx.call("collect", || tag.memory_areas().map(|d| rel(d, base)).collect()), all.clone()));
+                progs.push(("last".into(), ctx.call("last", || tag.memory_areas().last().map(|d| rel(d, base)).into_iter().collect()), all.last().copied().into_iter().collect()));
+                progs.push(("rev-count".into(), ctx.call("count", || vec![tag.memory_areas().count() as i64]), vec![]));
+                for k in 0..=n + 2 {
+                    progs.push((format!("nth({})", k), ctx.call("nth", || tag.memory_areas().nth(k).map(|d| rel(d, base)).into_iter().collect()), all.iter().copied().skip(k).take(1).collect()));
+                    progs.push((format!("next;nth({})", k), ctx.call("next+nth", || { let mut it = tag.memory_areas(); let _ = it.next(); it.nth(k).map(|d| rel(d, base)).into_iter().collect() }), all.iter().copied().skip(k + 1).take(1).collect()));
+                    progs.push((format!("skip({}).next;next", k), ctx.call("skip", || { let mut it = tag.memory_areas().skip(k); let a = it.next(); let b = it.next(); a.into_iter().chain(b).map(|d| rel(d, base)).collect() }), all.iter().copied().skip(k).take(2).collect()));
+                    if k >= 1 {
+                        progs.push((format!("step_by({})", k), ctx.call("step_by", || tag.memory_areas().step_by(k).map(|d| rel(d, base)).collect()), all.iter().copied().step_by(k).collect()));
+                    }
+                }
+                for (label, got, want) in progs {
+                    match got {
+                        // a map length that is not a multiple of the descriptor size may be refused (C18 decides that rule)
+                        Out::Panic if (size as usize - 16) % 48 != 0 => ctx.class("derived:efi-refused"),
+                        Out::Panic => ctx.violation("c05/derived/efi/spurious-panic", || format!("{} panicked on an EFI map of size {} ({} descriptors of 48 bytes)", label, size, n)),
+                        Out::Val(got) => {
+                            if label == "rev-count" {
+                                ctx.ob("efi.count", got[0] as u64);
+                                if got[0] != n as i64 {
+                                    ctx.violation("c05/derived/efi/count", || format!("count() = {} on an EFI map of size {}: ({} - 16) / 48 = {}", got[0], size, size, n));
+                                }
+                                continue;
+                            }
+                            for g in &got {
+                                ctx.ob("efi.item", *g as u64);
+                            }
+                            let wantv: Vec<i64> = want.iter().map(|i| 16 + 48 * *i as i64).collect();
+                            if let Some(bad) = got.iter().find(|&&o| o < 16 || o + 48 > size as i64) {
+                                ctx.violation("c05/derived/efi/beyond-size", || format!("{} on an EFI map of declared size {} ({} descriptors) handed out the bytes [{}, {}) of the tag; the map is [16, {})", label, size, n, bad, bad + 48, size));
+                            } else if got != wantv {
+                                ctx.violation("c05/derived/efi/items", || format!("{} on an EFI map of size {}: descriptors at offsets {:?}, expected {:?}", label, size, got, wantv));
+                            }
+                        }
+                    }
+                }
+                ctx.class("derived:efi");
+            });
+        }
+    }
+    // ---------- ELF section headers
+    for n in 0..=nmax.min(3) {
+        for spare in 0..24usize {
+            for shndx in 0..=(n + 1) as u32 {
+                let size = 20 + 64 * n + spare;
+                let mut tut = vec![0u8; size];
+                wr32(&mut tut, 0, bi::ELF);
+                wr32(&mut tut, 4, size as u32);
+                wr32(&mut tut, 8, n as u32);
+                wr32(&mut tut, 12, 64);
+                wr32(&mut tut, 16, shndx);
+                for k in 0..n {
+                    let o = 20 + 64 * k;
+                    wr32(&mut tut, o, 0);
+                    wr32(&mut tut, o + 4, 1);
+                    wr64(&mut tut, o + 16, INSIDE.as_ptr() as u64);
+                    wr64(&mut tut, o + 32, 8);
+                }
+                for i in 20 + 64 * n..size {
+                    tut[i] = 0;
+                }
+                // follower: every 8-byte slot holds the address of the planted string
+                let mut payload = vec![];
+                for _ in 0..12 {
+                    payload.extend_from_slice(&(PLANTED.as_ptr() as u64).to_le_bytes());
+                }
+                let follower = bi::tag(0x4242, &payload);
+                let planted_pad = |_t: usize, _k: usize| 0u8;
+                let region = bi::region(&[tut.clone(), follower, bi::end_tag()], &planted_pad);
+                let describe = || J::obj().set("part", "derived/elf").set("sections", n).set("spare_bytes", spare).set("shndx", shndx).set("declared_size", size).set("note", "section addr fields hold run-time addresses of static strings").set("region", J::hex(&region));
+                ctx.leaf(describe, |ctx| {
+                    ctx.state_direct();
+                    ctx.nontrivial();
+                    arena.fill(arena::FILL_B);
+                    let p = arena.place_right(&region);
+                    let r = ctx.call("load", || unsafe { BootInformation::load(p as *const BootInformationHeader) });
+                    let Out::Val(Ok(b)) = r else {
+                        ctx.violation("c05/region-load", || "load failed on a well-formed region".into());
+                        return;
+                    };
+                    let Out::Val(Some(tag)) = ctx.call("elf_sections_tag", || b.elf_sections_tag()) else {
+                        ctx.violation("c05/getter-none/ElfSections", || "elf_sections_tag() returned nothing".into());
+                        return;
+                    };
+                    let inside_ok = (shndx as usize) < n;
+                    let reaches_out = (shndx as usize + 1) * 64 > size - 20;
+                    let r = ctx.call("sections+name", || tag.sections().map(|s| s.name().map(|x| x.to_string())).collect::<Vec<_>>());
+                    match r {
+                        Out::Panic => {
+                            ctx.ob("elf.name.panic", 1);
+                            if inside_ok {
+                                ctx.violation("c05/derived/elf/spurious-panic", || format!("name() panicked: {} sections, string-table index {}", n, shndx));
+                            } else {
+                                ctx.class("derived:elf-refused");
+                            }
+                        }
+                        Out::Val(names) => {
+                            ctx.ob("elf.names", names.len() as u64);
+                            if names.len() != n {
+                                ctx.violation("c05/derived/elf/count", || format!("{} sections yielded, {} stored in a tag of size {}", names.len(), n, size));
+                            }
+                            for nm in &names {
+                                let txt = nm.as_ref().map(|s| s.as_str()).unwrap_or("<utf8 error>");
+                                ctx.ob_str("elf.name", txt);
+                                if inside_ok {
+                                    if txt != "inside" {
+                                        ctx.violation("c05/derived/elf/name", || format!("name() = {:?}, the string table (entry {}) gives \"inside\"", txt, shndx));
+                                    }
+                                } else if reaches_out && n > 0 {
+                                    ctx.violation("c05/derived/elf/name-beyond-size", || format!("name() = {:?} with string-table index {} on a tag of size {} holding {} headers + {} spare bytes: the string-table header [{}, {}) lies beyond the declared size", txt, shndx, size, n, spare, 20 + 64 * shndx as usize, 84 + 64 * shndx as usize));
+                                }
+                            }
+                            ctx.class(if n == 0 { "derived:elf-empty" } else { "derived:elf-named" });
+                        }
+                    }
+                });
+            }
+        }
+    }
+}
+
 fn run(ctx: &mut Ctx) {
     let arena = Arena::new(2);
     let extra = if ctx.quick() { 17 } else { 137 };
@@ -377,6 +562,7 @@ fn run(ctx: &mut Ctx) {
             }
         });
     }
+    derived(ctx, &arena);
 }
 
 fn main() {
